@@ -67,6 +67,7 @@ def run(ctx):
     configs = ["A"] if ctx.tier == "quick" else ["A", "B"]
     for cfg in configs:
         facts = ctx.facts("core.cpp", cfg)
+        r6_order_kept(ctx, facts, cfg)
         r1(ctx, facts, cfg)
         r2(ctx, facts, cfg)
         r3(ctx, facts, cfg)
@@ -568,8 +569,39 @@ def _bound_search(facts, f, cfg, field):
     return algo, ops
 
 
+def r6_order_kept(ctx, facts, cfg):
+    """R6c: the registries are searched by binary search (R6a/b), so they stay sorted by every operation: entries come in through the
+    insert at the searched position and leave through erase (which keeps the order of the rest). No member function of the manager
+    re-orders the vector: no swap / iter_swap / pop_back / sort-free assignment into an element, no push_back / emplace_back at the end"""
+    n = 0
+    for cls, field in (("quill::detail::SinkManager", "_sinks"), ("quill::detail::LoggerManager", "_loggers")):
+        for f in [x for x in facts.fns if x.config == cfg and x.cls == cls]:
+            bad = []
+            for c in f.calls():
+                cal = short(c.get("callee") or "")
+                onfield = any(is_this_field(x, field) for a in (c.get("args") or []) for x in walk(a)) or \
+                    (call_obj(c) is not None and any(is_this_field(x, field) for x in walk(call_obj(c))))
+                if not onfield:
+                    continue
+                if re.search(r"(^std::swap$|^std::iter_swap$|::pop_back$|::push_back$|::emplace_back$|^std::rotate$|^std::reverse$|^std::remove(_if)?$|::swap$)", cal):
+                    bad.append("%s at %s" % (cal, c.get("loc")))
+            for x in f.walk():
+                if x["k"] == "CXXOperatorCallExpr" and short(x.get("callee") or "").endswith("operator=") and len(x.get("args") or []) == 2:
+                    tgt = strip(x["args"][0], casts=True)
+                    if isnode(tgt) and tgt["k"] == "CXXOperatorCallExpr" and short(tgt.get("callee") or "").endswith("operator[]") and \
+                            any(is_this_field(y, field) for y in walk(tgt)):
+                        bad.append("assignment into %s[...] at %s" % (field, x.get("loc")))
+            if any(is_this_field(y, field) for y in f.walk()):
+                n += 1
+                ctx.ob("C17.R6c", "%s::%s:keeps-%s-sorted" % (cls.split("::")[-1], f.base, field), not bad,
+                       "the sorted registry is changed only by insert-at-the-searched-position and by erase (re-ordering operations: %s)"
+                       % ("; ".join(bad) or "none"), fn=f)
+    ctx.floor("C17.R6c", "member functions touching the sorted registries", n, 8)
+
+
 def r6(ctx, facts, cfg):
     """sorted registries: the insert position is the position the lookup inspects"""
+    r6_order_kept(ctx, facts, cfg)
     for cls, ins, fnd, field, stale in (("quill::detail::SinkManager", "_insert_sink", "_find_sink", "_sinks", True),
                                         ("quill::detail::LoggerManager", "_insert_logger", "_find_logger", "_loggers", False)):
         fi = facts.need(cls + "::" + ins, cfg)[0]
